@@ -344,6 +344,9 @@ class Inotify:
             break
 
         with self._lock:
+            if self._closed:
+                # close() released the descriptors after the read above.
+                return []
             event_list = []
             for wd, mask, cookie, name in Inotify._parse_event_buffer(event_buffer):
                 if wd == -1:
